@@ -1316,3 +1316,176 @@ Proof.
     intros Hy. destruct (Hs Hy) as (pre & w & j & o & _ & _ & Hf & Hb & Ho & _).
     exists (w0 + w), j, o. auto.
 Qed.
+
+(* ====================================================================== *)
+(* 5. histories with ATTRIBUTE ASSIGNMENTS on a live object                 *)
+
+(* ---- ChaperoneLoop: max_retries / confidence_decay assigned between calls *)
+
+Lemma count_heals_cons op ops :
+  count_heals (op :: ops) = (if is_heal op then S (count_heals ops) else count_heals ops).
+Proof. unfold count_heals. cbn [filter]. destruct (is_heal op); reflexivity. Qed.
+
+(* the call that follows the operations `pre` runs with the configuration those
+   operations leave (the LAST assignment of each attribute wins, whether it lowered
+   or raised the value), and it is exactly the single-call model with these values
+   against the generator as the earlier calls left it *)
+Lemma heal_hist_current_config_proof :
+  forall (gen : nat -> option ctx -> gen_out) (validate : Z -> vres)
+         (pre post : list hop) (c0 : hcfg) (k0 : nat),
+    let c := fold_left hcfg_apply pre c0 in
+    exists k,
+      nth_error (heal_hist gen validate c0 k0 (pre ++ HHeal :: post)) (count_heals pre)
+      = Some (c, k, heal (fun i ec => gen (k + i) ec) validate (hc_decay c) (hc_retries c)).
+Proof.
+  intros gen validate pre post. induction pre as [|op pre IH]; intros c0 k0.
+  - cbn. exists k0. reflexivity.
+  - cbv zeta in IH |- *. rewrite count_heals_cons. destruct op; cbn [app heal_hist fold_left is_heal].
+    + exact (IH (hcfg_apply c0 (HSetRetries mr)) k0).
+    + exact (IH (hcfg_apply c0 (HSetDecay d)) k0).
+    + cbn [nth_error hcfg_apply]. exact (IH c0 _).
+Qed.
+
+(* every call of any history is the single-call model at the configuration in
+   effect at that call: so it keeps THAT configuration's budget, threads the
+   errors, and tags its result as the property demands *)
+Lemma heal_hist_budget_proof :
+  forall (gen : nat -> option ctx -> gen_out) (validate : Z -> vres)
+         (ops : list hop) (c0 : hcfg) (k0 : nat) (c : hcfg) (k : nat) (r : heal_result),
+    In (c, k, r) (heal_hist gen validate c0 k0 ops) ->
+    r = heal (fun i ec => gen (k + i) ec) validate (hc_decay c) (hc_retries c) /\
+    length (h_calls r) <= Z.to_nat (hc_retries c + 1) /\
+    ((0 <= hc_retries c)%Z -> (Z.of_nat (length (h_calls r)) <= hc_retries c + 1)%Z) /\
+    ((hc_retries c < 0)%Z -> h_calls r = []) /\
+    (forall i cl, nth_error (h_calls r) i = Some cl ->
+       fst cl = i /\
+       match i with
+       | O => snd cl = None
+       | S j => exists cj o e,
+           nth_error (h_calls r) j = Some cj /\ gen (k + fst cj) (snd cj) = GOut o /\
+           validate o = VInvalid e /\ snd cl = Some (err_id e, o)
+       end) /\
+    match h_outcome r with
+    | ValidFirstTry | Healed => h_tagged r = false /\ h_structure r <> None
+    | Degraded =>
+        h_tagged r = true /\ h_conf r = 0%Q /\ h_structure r = None /\
+        length (h_calls r) = Z.to_nat (hc_retries c + 1)
+    | GenRaised => True
+    end.
+Proof.
+  intros gen validate ops. induction ops as [|op ops IH]; intros c0 k0 c k r Hin; [destruct Hin|].
+  destruct op; cbn [heal_hist] in Hin; try exact (IH _ _ _ _ _ Hin).
+  destruct Hin as [Heq | Hin]; [|exact (IH _ _ _ _ _ Hin)].
+  inversion Heq; subst c k r. clear Heq.
+  set (g := fun i ec => gen (k0 + i) ec).
+  split; [reflexivity|].
+  destruct (heal_calls_le_proof g validate (hc_decay c0) (hc_retries c0)) as (H1 & H2 & H3).
+  split; [exact H1|]. split; [exact H2|]. split; [exact H3|]. split.
+  - intros i cl Hi. exact (retry_sees_previous_error_proof g validate (hc_decay c0) (hc_retries c0) i cl Hi).
+  - pose proof (degraded_tagged_zero_proof g validate (hc_decay c0) (hc_retries c0)) as H.
+    destruct (h_outcome (heal g validate (hc_decay c0) (hc_retries c0))); auto.
+    destruct H as (T1 & T2 & T3 & T4 & _). auto.
+Qed.
+
+(* a history without assignments is the history model of section 4 *)
+Lemma heal_hist_no_assignment_proof :
+  forall (gen : nat -> option ctx -> gen_out) (validate : Z -> vres) (decay : Q) (mr : Z) (n k0 : nat),
+    map (fun x : hcfg * nat * heal_result => snd x)
+        (heal_hist gen validate (mkHCfg mr decay) k0 (repeat HHeal n))
+    = heal_runs gen validate decay mr n k0.
+Proof.
+  intros gen validate decay mr n. induction n as [|n IH]; intros k0; [reflexivity|].
+  cbn [repeat heal_hist heal_runs map snd hc_decay hc_retries]. f_equal. apply IH.
+Qed.
+
+(* ---- RegenerativeSwarm: max_regenerations / max_steps_per_worker /
+        entropy_threshold assigned between calls ---------------------------- *)
+Section SwarmHProofs.
+Variables Env Hint : Type.
+Variable spawn : Env -> nat -> Hint -> Env * bool.
+Variable wstepf : Env -> nat -> Env * wstep.
+Variable summarize : Env -> nat -> Hint.
+Variable memlen : Env -> nat -> nat.
+Variable h0 : Hint.
+
+Notation shist := (swarm_obj_hist spawn wstepf summarize memlen h0).
+Notation supo_at c := (supervise_o spawn wstepf summarize memlen h0 (sc_thr c) (sc_regen c) (sc_steps c)).
+
+Lemma count_sups_cons op ops :
+  count_sups (op :: ops) = (if is_sup op then S (count_sups ops) else count_sups ops).
+Proof. unfold count_sups. cbn [filter]. destruct (is_sup op); reflexivity. Qed.
+
+Lemma swarm_hist_current_config_proof :
+  forall (pre post : list sop) (c0 : scfg) (o : sobj) (e : Env),
+    let c := fold_left scfg_apply pre c0 in
+    exists o1 e1 e' o' r ws,
+      supo_at c o1 e1 = (e', o', r, ws) /\
+      nth_error (shist c0 (pre ++ SSupervise :: post) o e) (count_sups pre) = Some (c, o1, r, ws, o').
+Proof.
+  intros pre post. induction pre as [|op pre IH]; intros c0 o e.
+  - cbn [app fold_left]. cbv zeta. cbn [swarm_obj_hist].
+    destruct (supo_at c0 o e) as [[[e' o'] r] ws] eqn:E.
+    exists o, e, e', o', r, ws. split; [exact E|]. reflexivity.
+  - cbv zeta in IH |- *. rewrite count_sups_cons.
+    destruct op; cbn [app swarm_obj_hist fold_left is_sup].
+    + exact (IH (scfg_apply c0 (SSetRegen z)) o e).
+    + exact (IH (scfg_apply c0 (SSetSteps z)) o e).
+    + exact (IH (scfg_apply c0 (SSetThr q)) o e).
+    + destruct (supo_at c0 o e) as [[[e' o'] r] ws]. cbn [nth_error scfg_apply]. exact (IH c0 o' e').
+Qed.
+
+Lemma swarm_hist_budget_proof :
+  forall (ops : list sop) (c0 : scfg) (o : sobj) (e : Env)
+         (c : scfg) (o1 : sobj) (R : swarm_result) (ws : list (wrece Hint)) (o2 : sobj),
+    In (c, o1, R, ws, o2) (shist c0 ops o e) ->
+    (s_workers R = map we_rec ws /\
+     length (s_workers R) <= Z.to_nat (sc_regen c + 1) /\
+     (forall i r, nth_error (s_workers R) i = Some r -> w_idx r = so_counter o1 + i) /\
+     (forall r, In r (s_workers R) -> w_steps r <= Z.to_nat (sc_steps c)) /\
+     (s_success R = true ->
+        exists w j out e1, In (mkW w (S j) (WSuccess out)) (s_workers R) /\
+                           snd (wstepf e1 w) = WOut out true /\ s_output R = Some out) /\
+     (s_success R = false -> s_output R = None)) /\
+    so_counter o2 = so_counter o1 + length (s_workers R) /\
+    (exists new, so_ap o2 = so_ap o1 ++ new /\ length new = s_apoptosis R /\
+                 length new <= Z.to_nat (sc_regen c + 1)) /\
+    (exists new, so_rg o2 = so_rg o1 ++ new /\ new = s_regen R /\
+                 length new <= Z.to_nat (sc_regen c)).
+Proof.
+  induction ops as [|op ops IH]; intros c0 o e c o1 R ws o2 Hin; [destruct Hin|].
+  destruct op; cbn [swarm_obj_hist] in Hin; try exact (IH _ _ _ _ _ _ _ _ Hin).
+  destruct (supo_at c0 o e) as [[[e' o'] R'] ws'] eqn:E.
+  destruct Hin as [Heq | Hin]; [|exact (IH _ _ _ _ _ _ _ _ Hin)].
+  inversion Heq; subst.
+  exact (supo_spec Env Hint spawn wstepf summarize memlen h0 (sc_thr c) (sc_regen c) (sc_steps c)
+                   _ _ _ _ _ _ E).
+Qed.
+
+(* a history without assignments is the long-lived-object model of section 2c *)
+Lemma swarm_hist_no_assignment_proof :
+  forall (c : scfg) (n : nat) (o : sobj) (e : Env),
+    map (fun x : scfg * sobj * swarm_result * list (wrece Hint) * sobj =>
+           let '(_, o1, r, ws, o2) := x in (o1, r, ws, o2))
+        (shist c (repeat SSupervise n) o e)
+    = swarm_obj_runs spawn wstepf summarize memlen h0 (sc_thr c) (sc_regen c) (sc_steps c) n o e.
+Proof.
+  intros c n. induction n as [|n IH]; intros o e; [reflexivity|].
+  cbn [repeat swarm_obj_hist swarm_obj_runs].
+  destruct (supo_at c o e) as [[[e' o'] r] ws]. cbn [map]. f_equal. apply IH.
+Qed.
+End SwarmHProofs.
+
+Lemma history_without_assignments_proof :
+  (forall (gen : nat -> option ctx -> gen_out) (validate : Z -> vres) (decay : Q) (mr : Z) (n k0 : nat),
+     map (fun x : hcfg * nat * heal_result => snd x)
+         (heal_hist gen validate (mkHCfg mr decay) k0 (repeat HHeal n))
+     = heal_runs gen validate decay mr n k0) /\
+  (forall (Env Hint : Type)
+          (spawn : Env -> nat -> Hint -> Env * bool) (wstepf : Env -> nat -> Env * wstep)
+          (summarize : Env -> nat -> Hint) (memlen : Env -> nat -> nat) (h0 : Hint)
+          (c : scfg) (n : nat) (o : sobj) (e : Env),
+     map (fun x : scfg * sobj * swarm_result * list (wrece Hint) * sobj =>
+            let '(_, o1, r, ws, o2) := x in (o1, r, ws, o2))
+         (swarm_obj_hist spawn wstepf summarize memlen h0 c (repeat SSupervise n) o e)
+     = swarm_obj_runs spawn wstepf summarize memlen h0 (sc_thr c) (sc_regen c) (sc_steps c) n o e).
+Proof. exact (conj heal_hist_no_assignment_proof swarm_hist_no_assignment_proof). Qed.
